@@ -22,7 +22,7 @@ import json,sys
 src,dst,prop,cd,md,suite=sys.argv[1:7]
 try: m=json.load(open(src))
 except Exception: m={}
-out={"property":prop,"summary":m.get("summary",""),"needs":m.get("needs",""),"site":m.get("site",""),
+out={"property":m.get("property",prop) if prop.startswith("X") else prop,"summary":m.get("summary",""),"needs":m.get("needs",""),"site":m.get("site",""),
  "origin":"independent sub-agent given only the property text and a scratch worktree",
  "confirmed":{"how":"tools/confirm_mutants.sh in the scratch worktree: shell demonstration (demo.sh) run with and without the patch; existing suite with the patch",
    "demo_on_clean_tree":cd,"demo_with_patch":md,"existing_suite_with_patch":suite}}
@@ -58,7 +58,7 @@ import json,sys
 src,dst,prop,cd,md,suite=sys.argv[1:7]
 try: m=json.load(open(src))
 except Exception: m={}
-out={"property":prop,"summary":m.get("summary",""),"needs":m.get("needs",""),"site":m.get("site",""),
+out={"property":m.get("property",prop) if prop.startswith("X") else prop,"summary":m.get("summary",""),"needs":m.get("needs",""),"site":m.get("site",""),
  "origin":"independent sub-agent given only the property text and a scratch worktree",
  "confirmed":{"how":"tools/confirm_mutants.sh in the scratch worktree: git apply patch.diff; cargo build --features rand,serde,quickcheck,arbitrary; cargo test --workspace --no-fail-fast --offline (existing suite, unedited); cargo test --test demo with and without the patch",
    "demo_on_clean_tree":cd,"demo_with_patch":md,"existing_suite_with_patch":suite}}
